@@ -296,3 +296,42 @@ PROBE_FNS = [
     ("lnv", ["L", "N"], "V", "const"),
     ("zl", [], "L", "const"),
 ]
+
+
+# ---------------------------------------------------------------------------------
+# invalid / arbitrary query strings
+
+ALPHABET = list("$@.[]()?*,:'\"\\!=<>&| \t\n-+0123456789eEabcdftnrlsu_/") + ["é", "😀", "\x00", "\x1f", "\x7f", "A", "Z", "x"]
+TOKENS = ["$", "@", ".", "..", "[", "]", "(", ")", "?", "*", ",", ":", "'a'", '"b"', "!", "==", "!=", "<", "<=", ">", ">=",
+          "&&", "||", " ", "\n", "-", "0", "1", "-1", "01", "-0", "1.5", "1e2", "1E-2", "0e0", "true", "false", "null",
+          "True", "a", "b", "length", "count", "value", "match", "search", "length(", "count(", "foo(", "\\", "\\u0061",
+          "'", '"', "é", "😀", "=", "&", "|", "1:", ":2", "::", "..*", ".*", "[*]", "[?", "@.a", "$.b", "0.0", "-0.0", "00",
+          "1.", ".5", "1e", "1e+", "+1", "--1", "''", '""']
+
+
+def mutate(rng: random.Random, q: str) -> str:
+    """One random edit: delete / insert / replace / duplicate / transpose a character or a token."""
+    if not q:
+        return rng.choice(TOKENS)
+    k = rng.random()
+    i = rng.randrange(len(q))
+    if k < 0.25:
+        return q[:i] + q[i + 1 :]
+    if k < 0.5:
+        return q[:i] + rng.choice(ALPHABET) + q[i:]
+    if k < 0.65:
+        return q[:i] + rng.choice(ALPHABET) + q[i + 1 :]
+    if k < 0.75:
+        return q[:i] + q[i] + q[i:]
+    if k < 0.85 and len(q) > 1:
+        i = rng.randrange(len(q) - 1)
+        return q[:i] + q[i + 1] + q[i] + q[i + 2 :]
+    if k < 0.95:
+        return q[:i] + rng.choice(TOKENS) + q[i:]
+    j = rng.randrange(i, len(q))
+    return q[:i] + q[j:]
+
+
+def soup(rng: random.Random, n=None) -> str:
+    n = n or rng.randint(1, 8)
+    return "$" * (rng.random() < 0.8) + "".join(rng.choice(TOKENS) for _ in range(n))
